@@ -212,6 +212,18 @@ fn mutate_tokens(toks: &mut Vec<GTok>, other: &[GTok], t: &mut Tape, labels: &mu
         return;
     }
     let n = toks.len();
+    // kind-preserving replacement keeps most mutants syntactically valid, so that they reach
+    // the normalisation passes (a different name, terminal, attribute word, type or action)
+    if t.chance(150) {
+        let i = t.below(n);
+        let same: Vec<usize> = (0..n).filter(|&j| toks[j].kind == toks[i].kind && toks[j].text != toks[i].text).collect();
+        if !same.is_empty() {
+            let j = same[t.below(same.len())];
+            toks[i].text = toks[j].text.clone();
+            labels.push("replace-same-kind".into());
+            return;
+        }
+    }
     match t.weighted(&[4, 3, 3, 4, 3, 2, 2, 2]) {
         0 => {
             let i = t.below(n);
@@ -435,7 +447,7 @@ pub fn run(ctx: Ctx, replay: Option<PathBuf>) -> i32 {
     let files: Vec<(String, Vec<GTok>, String)> =
         corpus.iter().filter(|f| f.text.len() <= max_size).map(|f| (f.rel.clone(), gt::split(&f.text), f.text.clone())).collect();
 
-    let (n_near, n_mut, n_bytes) = ctx.tier.pick((6000usize, 3000usize, 1500usize), (150_000, 80_000, 40_000));
+    let (n_near, n_mut, n_bytes) = ctx.tier.pick((3000usize, 1600usize, 400usize), (120_000, 70_000, 10_000));
     let mut cases: Vec<Case> = vec![];
     for tp in tape::sample_tapes(ctx.seed, n_near, 0, 160) {
         cases.push(gen_near_valid(&tp));
